@@ -14,7 +14,7 @@ GenDepth == IF "GEN_DEPTH" \in DOMAIN IOEnv THEN atoi(IOEnv.GEN_DEPTH) ELSE 40
 
 Cmd(c, w, kind, i, filt, mode, n, p, op, lab, wait) ==
   [c |-> c, w |-> w, kind |-> kind, id |-> i, filt |-> filt, mode |-> mode, n |-> n, p |-> p,
-   op |-> op, lab |-> lab, wait |-> wait]
+   op |-> op, lab |-> lab, wait |-> wait, bb |-> FALSE]
 
 Rec(cmd) == hist' = Append(hist, cmd) /\ UNCHANGED done
 
@@ -29,10 +29,10 @@ GStartOne(w, i)      == StartOne(w, i)      /\ Rec(Cmd("start", w, "one", i, FAL
 GStartAll(w, f, agg) == StartAll(w, f)      /\ Rec(Cmd("start", w, IF agg THEN "agg" ELSE "all", 0, f, "default", 0, 0, "", FALSE, TRUE))
 GStartBoot(w, f, c, agg) == StartBoot(w, f, c) /\ Rec(Cmd("start", w, IF agg THEN "agg" ELSE "all", 0, f,
                                                          IF c THEN "bootstrap" ELSE "bmbootstrap", 0, 0, "", FALSE, TRUE))
-GStartTail(w, kind, i, n, agg) ==
-  StartTail(w, kind, i, n) /\ Rec(Cmd("start", w, IF kind = "one" THEN "one" ELSE IF agg THEN "agg" ELSE "all", i, FALSE, "tail", n, 0, "", FALSE, TRUE))
-GStartBookmark(w, kind, i, p, agg) ==
-  StartBookmark(w, kind, i, p) /\ Rec(Cmd("start", w, IF kind = "one" THEN "one" ELSE IF agg THEN "agg" ELSE "all", i, FALSE, "bookmark", 0, p, "", FALSE, TRUE))
+GStartTail(w, kind, i, n, agg, bb) ==
+  StartTail(w, kind, i, n, bb) /\ Rec([Cmd("start", w, IF kind = "one" THEN "one" ELSE IF agg THEN "agg" ELSE "all", i, FALSE, "tail", n, 0, "", FALSE, TRUE) EXCEPT !.bb = bb /\ kind = "all"])
+GStartBookmark(w, kind, i, p, agg, bb) ==
+  StartBookmark(w, kind, i, p, bb) /\ Rec([Cmd("start", w, IF kind = "one" THEN "one" ELSE IF agg THEN "agg" ELSE "all", i, FALSE, "bookmark", 0, p, "", FALSE, TRUE) EXCEPT !.bb = bb /\ kind = "all"])
 GDeliver(w) == Deliver(w) /\ Rec(Cmd("recv", w, "", 0, FALSE, "", 0, 0, "", FALSE, TRUE))
 GRead(w) == Read(w) /\ UNCHANGED <<hist, done>>
 
@@ -40,8 +40,8 @@ Pubs   == \E i \in Ids : GPublish(i)
 Starts == \/ \E w \in W, i \in Ids : GStartOne(w, i)
           \/ \E w \in W, f \in BOOLEAN, a \in BOOLEAN : GStartAll(w, f, a)
           \/ \E w \in W, f \in BOOLEAN, c \in BOOLEAN, a \in BOOLEAN : GStartBoot(w, f, c, a)
-          \/ \E w \in W, i \in Ids, n \in Tails, a \in BOOLEAN : GStartTail(w, "one", i, n, a) \/ GStartTail(w, "all", 0, n, a)
-          \/ \E w \in W, i \in Ids, p \in -1..(Len(log) + 1), a \in BOOLEAN : GStartBookmark(w, "one", i, p, a) \/ GStartBookmark(w, "all", 0, p, a)
+          \/ \E w \in W, i \in Ids, n \in Tails, a \in BOOLEAN, bb \in BOOLEAN : GStartTail(w, "one", i, n, a, FALSE) \/ GStartTail(w, "all", 0, n, a, bb)
+          \/ \E w \in W, i \in Ids, p \in -1..(Len(log) + 1), a \in BOOLEAN, bb \in BOOLEAN : GStartBookmark(w, "one", i, p, a, FALSE) \/ GStartBookmark(w, "all", 0, p, a, bb)
 Moves  == \E w \in W : GRead(w) \/ GDeliver(w)
 CanStart == \E w \in W : ws[w].status = "idle"
 CanMove  == \E w \in W : ws[w].status = "active" /\ (ws[w].outbox # <<>> \/ ws[w].pos < writePos)
